@@ -25,6 +25,9 @@ def case_from_json(j):
 def gen_history_case(ctx, run, prop, **over):
     rc = rng_for(ctx.seed, prop, run, "cfg")
     cfg = swarm_config(rc, ctx.tier, **over)
+    cfg["npkeys"] = rc.random() < 0.4      # numpy-integer / bool item keys (never in workloads that go through printed text)
+    if cfg["npkeys"]:
+        cfg["weights"]["load"] = 0
     spec = gen_spec(rng_for(ctx.seed, prop, run, "spec"), cfg)
     hg = HistoryGen(rng_for(ctx.seed, prop, run, "ops"), cfg, spec)
     ops = hg.history()
@@ -532,7 +535,15 @@ class C17:
                     continue
                 w = ex.world
                 mgr = w.mgr
+                # freeze/unfreeze are switches, not a counter: a stray unfreeze before, or freezing twice, changes nothing
+                variant = (p * 7 + len(atts)) % 10
+                if variant in (0, 1, 2):
+                    mgr.unfreeze_tree()
+                    count("stray_unfreeze_before_freeze")
                 mgr.freeze_tree()
+                if variant in (2, 3):
+                    mgr.freeze_tree()
+                    count("double_freeze")
                 count("freeze_points")
                 for a in atts:
                     cls = classify_frozen(ex.model, a)
@@ -935,6 +946,18 @@ class C11:
                     for p, a in pre:
                         D.mgr.register(xd.tasks.ExprTask(D.ref(p), D.build(a)))
                     bindings = {label: D.rootref[label][key]} if wrap else None
+                    shadow = []
+                    if wrap:
+                        # the destination may already hold definitions at label[k] - beside the holder - whose printed
+                        # target equals the un-rebound text of a copied entry; they are other locations and stay as they are
+                        outer = D.rootobj[label]
+                        for p, a in pairs[:2]:
+                            if len(p) == 2 and p[1][0] == "i" and isinstance(p[1][1], str) and p[1][1] != key:
+                                dict.__setitem__(outer, p[1][1], 0.0)
+                                tref = D.rootref[label][p[1][1]]
+                                e = D.ref(p) * 2
+                                D.mgr.register(xd.tasks.ExprTask(tref, e))
+                                shadow.append((str(tref), str(e)))
 
                     def do_copy():
                         D.mgr.copy_expr_from(S.mgr, label, bindings=bindings, overwrite=overwrite)
@@ -946,7 +969,7 @@ class C11:
                         raise Violation(prop + ".copy_fails", "%s raised %s: %s" % (where, type(exc).__name__, str(exc)[:300]))
                     restarts += 1
                     ex.count("fault:restart_copy_expr_from" + ("_rebound" if wrap else ""))
-                    expected = sorted((str(D.ref(p)), str(D.build(a))) for p, a in mD.defs.items())
+                    expected = sorted([(str(D.ref(p)), str(D.build(a))) for p, a in mD.defs.items()] + shadow)
                     got = O.definitions(D.mgr)
                     if got != expected:
                         s1, s2 = set(got), set(expected)
@@ -1058,7 +1081,8 @@ class C13:
         hg = HistoryGen(rng_for(ctx.seed, "C13", run, "ops"), cfg, spec)
         rm = rng_for(ctx.seed, "C13", run, "markers")
         ops = []
-        n_mark = rm.randint(1, 4)
+        last_args = None
+        n_mark = rm.randint(2, 5)
         marks = sorted(rm.randint(3, max(3, cfg["n_ops"])) for _ in range(n_mark))
         for k in range(cfg["n_ops"] + 1):
             while marks and marks[0] <= k:
@@ -1078,6 +1102,10 @@ class C13:
                     p = rm.choice(good if rm.random() < 0.8 else leaves)
                     if p not in args:
                         args.append(p)
+                # callers typically ask for the same setter again after the graph has changed
+                if last_args and rm.random() < 0.45 and all(not m.is_derived(p) for p in last_args):
+                    args = list(last_args)
+                last_args = list(args)
                 vals = tuple(gen_value(rm, spec.leaf_type[p]) for p in args)
                 mk = ("genfun", tuple(args), vals)
                 # keep the generator's model in step: the call is equivalent to sequential assignments
@@ -1248,6 +1276,9 @@ class C20:
         rc = rng_for(ctx.seed, "C20", run, "cfg")
         cfg = swarm_config(rc, ctx.tier, weights_over={"load": 3, "refresh": 1})
         cfg["g_restricted"] = rc.random() < 0.8
+        cfg["npkeys"] = rc.random() < 0.4
+        if cfg["npkeys"]:
+            cfg["weights"]["load"] = 0
         spec = gen_spec(rng_for(ctx.seed, "C20", run, "spec"), cfg)
         hg = HistoryGen(rng_for(ctx.seed, "C20", run, "ops"), cfg, spec)
         ops = hg.history()
@@ -1265,7 +1296,7 @@ class C20:
         tgts = free_t[:re_.randint(0, 2)]
         fl = [l for l in spec.leaves if spec.leaf_type[l] == "f" and l not in tgts]
         il = [l for l in spec.leaves if spec.leaf_type[l] == "i" and l not in tgts]
-        lists = [p for p, ct in spec.containers.items() if ct == "list" and not any(t[:len(p)] == p for t in tgts)]
+        lists = [p for p, ct in spec.containers.items() if ct in ("list", "nplist") and not any(t[:len(p)] == p for t in tgts)]
         for tgt in tgts:
             k = re_.choice(["negshift", "floatshift", "badindex", "roundfloat"])
             if k == "negshift" and il:
